@@ -103,3 +103,136 @@ def from_real_layout(x, grid, impl):
 def padding_mask(grid, grid_shape, impl):
   """True at positions of a modal array that are NOT resolved coefficients (masked, row 1, padding)."""
   return ~np.asarray(grid.mask, dtype=bool)
+
+
+# -- equations and states ------------------------------------------------------------------------
+
+SQRT4PI = float(np.sqrt(4 * np.pi))
+
+
+def make_coords(shape, bounds, spacing='gauss', impl='real', radius=None, mesh=None, layers=None):
+  """CoordinateSystem on the real code. `bounds` = sigma boundaries; `layers` = LayerCoordinates count instead."""
+  from dinosaur import coordinate_systems as cs
+  from dinosaur import sigma_coordinates as sc
+  from dinosaur import layer_coordinates as lc
+  grid = make_grid(shape, spacing, impl, radius=radius)
+  vert = lc.LayerCoordinates(layers) if layers is not None else sc.SigmaCoordinates(np.asarray(bounds, dtype=np.float64))
+  if mesh is not None:
+    return cs.CoordinateSystem(grid, vert, spmd_mesh=mesh)
+  return cs.CoordinateSystem(grid, vert)
+
+
+def pe_specs(scale=None):
+  from dinosaur import primitive_equations as pe
+  if scale is None:
+    return pe.PrimitiveEquationsSpecs.from_si()
+  return pe.PrimitiveEquationsSpecs.from_si(scale=scale)
+
+
+PE_CLASSES = ('PrimitiveEquations', 'PrimitiveEquationsWithTime', 'MoistPrimitiveEquations',
+              'MoistPrimitiveEquationsWithCloudMoisture')
+CLOUD_TRACERS = ('specific_cloud_liquid_water_content', 'specific_cloud_ice_water_content')
+
+
+def make_pe(cls_name, coords, tref, orog_real, specs, impl='real', **kw):
+  """orog_real: modal orography in the Real layout (2M-1, L)."""
+  from dinosaur import primitive_equations as pe
+  orog = from_real_layout(np.asarray(orog_real, dtype=np.float64), coords.horizontal, impl)
+  return getattr(pe, cls_name)(np.asarray(tref, dtype=np.float64), orog, coords, specs, **kw)
+
+
+def pe_state(cls_name, coords, impl, vort, div, temp, lnps, tracers=None, sim_time=0.0):
+  """Builds a State / StateWithTime from Real-layout coefficient arrays (any leading batch axes)."""
+  from dinosaur import primitive_equations as pe
+  import jax.numpy as jnp
+  g = coords.horizontal
+  conv = lambda x: jnp.asarray(from_real_layout(np.asarray(x, dtype=np.float64), g, impl))
+  tr = {k: conv(v) for k, v in (tracers or {}).items()}
+  if cls_name == 'PrimitiveEquations':
+    return pe.State(conv(vort), conv(div), conv(temp), conv(lnps), tr)
+  return pe.StateWithTime(conv(vort), conv(div), conv(temp), conv(lnps), sim_time, tr)
+
+
+def total_tendency_fn(eq):
+  """state -> explicit_terms(state) + implicit_terms(state) as a pytree of the state's type."""
+  import jax
+
+  def f(state):
+    e = eq.explicit_terms(state)
+    i = eq.implicit_terms(state)
+    return jax.tree_util.tree_map(lambda a, b: a + b, e, i)
+  return f
+
+
+def pe_tendency_to_real(tend, shape, impl):
+  """State-like tendency -> dict of Real-layout numpy arrays (resolved block)."""
+  d = dict(vorticity=to_real_layout(tend.vorticity, shape, impl), divergence=to_real_layout(tend.divergence, shape, impl),
+           temperature=to_real_layout(tend.temperature_variation, shape, impl),
+           lnps=to_real_layout(tend.log_surface_pressure, shape, impl),
+           tracers={k: to_real_layout(v, shape, impl) for k, v in tend.tracers.items()})
+  if hasattr(tend, 'sim_time'):
+    d['sim_time'] = np.asarray(tend.sim_time)
+  return d
+
+
+def ref_pe_for(shape, bounds, specs, radius=None, degree=3, moist=False, **kw):
+  from mc.ref import pe as rpe
+  M, L = shape[0], shape[1]
+  extra = {}
+  if moist:
+    extra = dict(Rv=specs.R_vapor, cpv_over_cp=specs.Cp_vapor / specs.Cp)
+  return rpe.PrimitiveEquationsRef(M, L, radius=specs.radius if radius is None else radius, sigma_bounds=bounds, R=specs.R,
+                                   kappa=specs.kappa, g=specs.g, omega=specs.angular_velocity, degree=degree, **extra, **kw)
+
+
+# -- excitation alphabet (simplex lattice of DESIGN section C05) -------------------------------
+
+UNIT_AMPLITUDE = dict(vorticity=0.1, divergence=0.05, temperature=5.0, lnps=0.02, potential=0.05)
+
+
+def low_modes(lmax, M, zero_mean):
+  """(row index in Real layout, l) of every mode with l <= lmax (l >= 1 when zero_mean)."""
+  from mc.ref import sphere
+  out = []
+  for m, l, kind in sphere.modes(min(M, lmax + 1), lmax + 1):
+    if zero_mean and l == 0:
+      continue
+    out.append((sphere.real_index(m, kind), l))
+  return out
+
+
+def pe_alphabet(K, lmax, M):
+  """Unit excitations (field, level, row, l) of the dry primitive-equation state."""
+  alpha = []
+  for field, zm, levels in (('vorticity', True, K), ('divergence', True, K), ('temperature', False, K), ('lnps', False, 1)):
+    for k in range(levels):
+      for (i, l) in low_modes(lmax, M, zm):
+        alpha.append((field, k, i, l))
+  return alpha
+
+
+def multisets(n, depth):
+  """All multisets of size <= depth over range(n), as sorted tuples: BFS order by 'add one excitation'."""
+  out = [()]
+  frontier = [()]
+  for _ in range(depth):
+    nxt = []
+    for ms in frontier:
+      lo = ms[-1] if ms else 0
+      for e in range(lo, n):
+        nxt.append(ms + (e,))
+    out += nxt
+    frontier = nxt
+  return out
+
+
+def states_from_multisets(alphabet, msets, K, M, L, palette, fields=('vorticity', 'divergence', 'temperature', 'lnps')):
+  """dict field -> (B, K or 1, 2M-1, L) Real-layout coefficients; excitation e has amplitude
+  UNIT_AMPLITUDE[field] * palette[e % len(palette)] and multiplicity adds up."""
+  B = len(msets)
+  out = {f: np.zeros((B, 1 if f == 'lnps' else K, 2 * M - 1, L)) for f in fields}
+  for b, ms in enumerate(msets):
+    for e in ms:
+      field, k, i, l = alphabet[e]
+      out[field][b, k, i, l] += UNIT_AMPLITUDE[field] * palette[e % len(palette)]
+  return out
